@@ -484,3 +484,63 @@ def check_strictness(rule, root=None):
                     rule.bad("%s|%s|%s" % (kind, name, x.mnem), "%s %s branches on `%s` but the interpreter decides this choice with a %s comparison: the two disagree when the operands touch" % (kind, name, x.mnem, "strict" if rust_strict else "non-strict"), "%s:%d" % (path_of(kind), x.ln))
                 else:
                     rule.ok("%s %s `%r`" % (kind, name, x))
+
+
+# ---------------------------------------------------------------------------
+# single-instruction builders: mnemonic family and operand order
+
+
+SIMPLE = {"build_add": "add", "build_sub": "sub", "build_mul": "mul", "build_div": "div", "build_sqrt": "sqrt", "build_square": "mul"}
+ROUND_MODE = {"build_floor": "1", "build_ceil": "2"}
+MOVE_WIDTH = {"point": ({"vmovss", "movss"}, 16), "interval": ({"vmovq", "movq", "vmovsd"}, 16), "float_slice": ({"vmovups", "vmovaps"}, 32), "grad_slice": ({"vmovups", "vmovaps"}, 16)}
+
+
+def check_simple_builders(rule, kind, root=None):
+    p = path_of(kind)
+    builders = M.load_builders(p, root)
+    for name, b in sorted(builders.items()):
+        ins = [x for x in stream(b, builders) if x.label is None]
+        if b.helper_calls:
+            continue
+        params = [n for n, ty in b.params]
+        key = "%s|%s" % (kind, name)
+        if name in SIMPLE and len(ins) == 1:
+            x = ins[0]
+            regs = [o.name for o in x.ops if o.kind == "vec"]
+            if name == "build_sqrt":
+                want = ["T:%s" % params[0], "T:%s" % params[1]]
+            elif name == "build_square":
+                want = ["T:%s" % params[0], "T:%s" % params[1], "T:%s" % params[1]]
+            else:
+                want = ["T:%s" % params[0], "T:%s" % params[1], "T:%s" % params[2]]
+            if SIMPLE[name] not in x.mnem:
+                rule.bad(key + "|mnemonic", "%s %s is the single instruction `%r`; the opcode needs a `%s` instruction" % (kind, name, x, SIMPLE[name]), "%s:%d" % (p, x.ln))
+            elif regs != want:
+                rule.bad(key + "|operands", "%s %s: `%r` uses registers %s, expected (%s)" % (kind, name, x, regs, ", ".join(want)), "%s:%d" % (p, x.ln))
+            else:
+                rule.ok("%s %s = `%r`" % (kind, name, x), file=p, line=x.ln)
+        elif name in ROUND_MODE and len(ins) == 1:
+            x = ins[0]
+            imm = [o.text.replace(" ", "") for o in x.ops if o.kind == "imm"]
+            regs = [o.name for o in x.ops if o.kind == "vec"]
+            if "round" not in x.mnem or imm != [ROUND_MODE[name]] or regs[0] != "T:%s" % params[0] or set(regs[1:]) != {"T:%s" % params[1]}:
+                rule.bad(key + "|round", "%s %s: `%r` must round %s towards %s (mode %s)" % (kind, name, x, params[1], "-inf" if name == "build_floor" else "+inf", ROUND_MODE[name]), "%s:%d" % (p, x.ln))
+            else:
+                rule.ok("%s %s = `%r` (rounding mode %s)" % (kind, name, x, ROUND_MODE[name]), file=p, line=x.ln)
+        elif name in ("build_load", "build_store", "build_input", "build_output", "build_copy"):
+            mv = [x for x in ins if x.mnem in MOVE_WIDTH[kind][0] or x.mnem.startswith("vmov") or x.mnem.startswith("mov")]
+            vm = [x for x in mv if any(o.kind == "vec" for o in x.ops)]
+            if len(vm) != 1:
+                continue
+            x = vm[0]
+            mn, width = MOVE_WIDTH[kind]
+            vecs = [o for o in x.ops if o.kind == "vec"]
+            regp = {"build_load": params[0], "build_store": params[1], "build_input": params[0], "build_output": params[0], "build_copy": None}[name]
+            if x.mnem not in mn or any(o.width != width for o in vecs):
+                rule.bad(key + "|width", "%s %s moves data with `%r`; a %s value needs %s on %d-byte registers" % (kind, name, x, kind, sorted(mn), width), "%s:%d" % (p, x.ln))
+            elif regp is not None and [o.name for o in vecs] != ["T:%s" % regp]:
+                rule.bad(key + "|reg", "%s %s moves %s, expected its register parameter `%s`" % (kind, name, [o.name for o in vecs], regp), "%s:%d" % (p, x.ln))
+            elif name == "build_copy" and [o.name for o in vecs][0] != "T:%s" % params[0] or (name == "build_copy" and [o.name for o in vecs][-1] != "T:%s" % params[1]):
+                rule.bad(key + "|copy", "%s build_copy must copy %s into %s; found `%r`" % (kind, params[1], params[0], x), "%s:%d" % (p, x.ln))
+            else:
+                rule.ok("%s %s = `%r`" % (kind, name, x), file=p, line=x.ln)
